@@ -6,6 +6,7 @@ import (
 	"fmt"
 	"os"
 	"path/filepath"
+	"regexp"
 	"sort"
 	"strings"
 	"testing"
@@ -99,7 +100,7 @@ func (h Header) text() string {
 		fmt.Fprintf(&b, " revision %s;\n", r)
 	}
 	// every revision defines t, g and id in its own way, so that what a prefix denotes is observable
-	fmt.Fprintf(&b, " typedef t { type string; units \"%s\"; }\n grouping g { leaf from-%s { type string; } }\n identity id;\n", h.Tag, h.Tag)
+	fmt.Fprintf(&b, " typedef t { type string; units \"%s\"; }\n grouping g { leaf from-%s { type string; } }\n identity id;\n typedef lt { type identityref { base id; } }\n leaf ll { type lt; }\n", h.Tag, h.Tag)
 	b.WriteString("}\n")
 	return b.String()
 }
@@ -478,6 +479,8 @@ func checkFiles(c Case, o *ev.Outcome) {
 
 // ---- (c) include = inline ----
 
+var heldIn = regexp.MustCompile(`"IdentityBaseIn":"[^"]*",?|"IdentityValues":\[[^\]]*\],?`)
+
 func dumpModule(ms *yang.Modules, name string) string {
 	m := ms.Modules[name]
 	if m == nil {
@@ -486,6 +489,8 @@ func dumpModule(ms *yang.Modules, name string) string {
 	var problems []string
 	x := canon.Entry(yang.ToEntry(m), canon.Opts{Attrs: true}, &problems)
 	j, _ := json.Marshal(x)
+	// which text holds an identity differs between the split and the unsplit module by construction
+	j = heldIn.ReplaceAll(j, nil)
 	var ids []string
 	all := append([]*yang.Identity(nil), m.Identity...)
 	for _, in := range m.Include {
